@@ -567,6 +567,7 @@ static bool judgeAssembler(Ctx& c, AsmRun& R, Assembler& A, const std::string& a
     auto W = [&](const EvalOut* e = nullptr) {
         Json j = Json::obj().set("api", apiFull).set("model", S.m.desc.shortStr()).set("userEuler", S.userEuler).set("cons", S.conTypes())
             .set("kinds", P.kinds()).set("restr", P.restr()).set("tol", tol).set("acc", acc).set("rms", P.rms).set("reportedGoal", reported).set("achievable", achievableNow).set("delta", P.delta);
+        if (throwsDuringCall > 0) j.set("optimizerFailureSwallowed", std::string(g_lastThrow));
         if (e) j.set("errNorm", e->errNorm).set("goal", e->goal).set("gM", e->gM).set("gO", e->gO).set("gQ", e->gQ).set("gC", e->gC);
         return j;
     };
